@@ -24,13 +24,15 @@ Inductive gate :=
 Definition ctrl_ok (s : st) (cs : list (nat * bool)) : bool :=
   forallb (fun cv => Bool.eqb (s (fst cv)) (snd cv)) cs.
 
+(* every gate is written as an update of its target(s) with a boolean expression of the old state
+   (flip iff the controls hold), so that circuits evaluate to explicit update chains *)
 Definition apply_gate (g : gate) (s : st) : option st :=
   match g with
-  | GX cs t => Some (if ctrl_ok s cs then upd s t (negb (s t)) else s)
-  | GSwap cs a b => Some (if ctrl_ok s cs then upd (upd s a (s b)) b (s a) else s)
-  | GAnd cs t => if s t then None else Some (if ctrl_ok s cs then upd s t true else s)
-  | GAndAdj cs t => let s' := if ctrl_ok s cs then upd s t (negb (s t)) else s in
-                    if s' t then None else Some s'
+  | GX cs t => Some (upd s t (xorb (s t) (ctrl_ok s cs)))
+  | GSwap cs a b => let c := ctrl_ok s cs in
+                    Some (upd (upd s a (if c then s b else s a)) b (if c then s a else s b))
+  | GAnd cs t => if s t then None else Some (upd s t (ctrl_ok s cs))
+  | GAndAdj cs t => if xorb (s t) (ctrl_ok s cs) then None else Some (upd s t false)
   end.
 
 Fixpoint run (c : list gate) (s : st) : option st :=
